@@ -1815,6 +1815,17 @@ class HTMLDependency(MetadataNode):
 
         # Set up the target directory.
         target_dir = Path(os.path.join(path, paths["href"])).resolve()
+        source_dir = Path(paths["source"]).resolve()
+        if source_dir == target_dir:
+            # The files already are where they are wanted (e.g. libdir=None,
+            # include_version=False and a source directory named after the dependency
+            # next to the HTML file). Clearing the target would delete the source.
+            return None
+        if target_dir in source_dir.parents:
+            raise Exception(
+                f"Failed to copy HTML dependency {self.name}-{str(self.version)} "
+                + f"because the target directory {target_dir} contains its source directory."
+            )
         if os.path.exists(target_dir):
             shutil.rmtree(target_dir)
         target_dir.mkdir(parents=True, exist_ok=True)
